@@ -279,7 +279,32 @@ def r5_stream_order(ctx):
             )
 
 
+def r6_shared(ctx):
+    from ..report import Relabel
+    from .. import cxx
+    from . import c10, c11, c12
+
+    docs = c10._docs(ctx)
+    nc = cxx.method(docs, 'next_cut')
+    fors = [n for n in cxx.walk(nc) if n.get('kind') == 'ForStmt']
+    inc = cxx.strip(fors[0]['inner'][3]) if fors else None
+    lit = cxx.strip(inc['inner'][1]) if inc is not None and inc.get('kind') == 'CompoundAssignOperator' else None
+    stride = int(lit['value']) if lit is not None and lit.get('kind') == 'IntegerLiteral' else 4
+    c11.r2_padding(Relabel(ctx, 'C07.R2'), docs, stride)
+    c12.r4_reauth(Relabel(ctx, 'C07.R3'))
+    # the CLI turns --clone into a shared key (data of the original key is reused)
+    mn = ctx.corpus.module('main').functions.get('_cmd_handler')
+    ok = False
+    if mn is not None:
+        for c in calls_in(mn.node):
+            if (dotted(c.func) or '').endswith('add_key'):
+                sh = next((k.value for k in c.keywords if k.arg == 'shared'), None)
+                ok = sh is not None and 'args.shared' in src(sh) and 'args.clone' in src(sh) and isinstance(sh, ast.BoolOp) and isinstance(sh.op, ast.Or)
+    ctx.check(ok, 'C07.R2', f'{func_label(mn)}|clone-is-shared', loc(mn, mn.node) if mn else 'replicat/__main__.py', 'CLI add-key: --clone (like --shared) copies the family secrets, so data stored with the original key is found and reused', 'CLI add-key: --clone no longer creates a shared key: the clone gets fresh MAC / chunker / shared secrets and re-uploads everything the original key already stored')
+
+
 def run(ctx):
+    r6_shared(ctx)
     r1_naming(ctx)
     r2_boundaries(ctx)
     r3_exists_before_upload(ctx)
